@@ -136,6 +136,7 @@ type hist struct {
 	// scripted histories
 	forceName string
 	forceNum  *int64
+	fnCount   int
 }
 
 var namePool = []string{"cur", "CUR", "Cur", "c2", "C2", "kur"}
@@ -263,7 +264,7 @@ func (h *hist) setup(fixedFile bool, fixedN int) {
 			must(h.exec("INSERT INTO t VALUES " + strings.Join(vals, ", ") + ";"))
 		}
 	}
-	must(h.exec("VAR @a, @b, @s, @n; DECLARE lg VIEW (a, b);"))
+	must(h.exec("VAR @a, @b, @c, @d, @s, @n; DECLARE lg VIEW (a, b); DECLARE lp VIEW (t, a, b);"))
 	h.o.Case("c16.reset", "ok")
 }
 
@@ -1102,6 +1103,11 @@ func (h *hist) run(steps int) int {
 	}
 	for done < steps && !h.aborted {
 		if !h.probe() {
+			structured := func(f func() bool) {
+				if !h.valid || !f() {
+					h.stepStatus(-1)
+				}
+			}
 			switch w := g.Intn(100); {
 			case w < 6:
 				h.stepDeclare("", 0)
@@ -1111,17 +1117,21 @@ func (h *hist) run(steps int) int {
 				} else {
 					h.stepStatus(-1)
 				}
-			case w < 62:
+			case w < 56:
 				h.stepFetch("", "")
-			case w < 63:
+			case w < 57:
 				h.stepFetchBad()
-			case w < 75:
+			case w < 67:
 				h.stepStatus(-1)
-			case w < 81:
+			case w < 71:
 				h.stepWhile(-1)
-			case w < 84:
-				h.stepClose()
+			case w < 80:
+				structured(func() bool { return h.stepLoop(nil, "", nil, false) })
+			case w < 83:
+				structured(h.stepBlock)
 			case w < 86:
+				h.stepClose()
+			case w < 88:
 				h.stepDispose()
 			default:
 				h.stepDML()
@@ -1159,6 +1169,10 @@ func scripted(g *hc.Gen, o *hc.Out, dir string, seed int64) int {
 		{false, 6, qDesc, []st{{"open", 0}, {"dml", 0}, {"next", 0}, {"dml", 0}, {"last", 0}, {"dml", 0}, {"first", 0}, {"dml", 0}, {"while", 2}, {"while", 0}}},
 		// clamping: ABSOLUTE far out, then PRIOR / NEXT from the clamped position
 		{false, 4, qAll, []st{{"open", 0}, {"abs", mx}, {"prior", 0}, {"abs", mn}, {"next", 0}, {"rel", mx - 1}, {"rel", mn}, {"rel", -4}, {"rel", 3}, {"rel", 1}, {"rel", 1}, {"prior", 0}}},
+		// life-cycle statements inside the WHILE IN body
+		{false, 3, qAll, []st{{"open", 0}, {"loop_dispose", 0}, {"isopen", 0}, {"declare", 0}, {"open", 0}, {"loop_dispose", 1}, {"isopen", 0}}},
+		{true, 3, qAll, []st{{"open", 0}, {"loop_shadow", 0}, {"inrange", 0}, {"next", 0}}},
+		{false, 5, qAll, []st{{"open", 0}, {"loop_close", 0}, {"isopen", 0}}},
 		// errors
 		{true, 2, qOneCol, []st{{"next", 0}, {"count", 0}, {"inrange", 0}, {"isopen", 0}, {"while", 0}, {"open", 0}, {"open", 0}, {"declare", 0}, {"close", 0}, {"close", 0},
 			{"next", 0}, {"dispose", 0}, {"next", 0}, {"open", 0}, {"close", 0}, {"dispose", 0}, {"isopen", 0}, {"fetchbad", 0}}},
@@ -1196,6 +1210,21 @@ func scripted(g *hc.Gen, o *hc.Out, dir string, seed int64) int {
 				h.stepStatus(2)
 			case "fetchbad":
 				h.stepFetchBad()
+			case "loop_dispose": // seeded change C16-m4, scenario 1: the body disposes the iterated cursor
+				call := x.num == 1
+				h.forceName = ""
+				h.stepLoop([]*litem{{sub: true, guard: 1, call: call, stmts: []*lstmt{{kind: "dispose", name: "cur"}}}}, "cur", nil, false)
+				h.forceName = "cur"
+			case "loop_shadow": // scenario 2: the disposed cursor shadowed the outer one; the loop goes on over the outer
+				h.forceName = ""
+				h.stepLoop([]*litem{{sub: true, guard: 2, stmts: []*lstmt{{kind: "dispose", name: "cur"}}}}, "cur",
+					[]*lstmt{{kind: "declare", name: "cur", qkind: qDesc}, {kind: "open", name: "cur"}}, true)
+				h.forceName = "cur"
+			case "loop_close": // CLOSE in the body: the next iteration is the "closed" error; re-OPEN restarts
+				h.forceName = ""
+				h.stepLoop([]*litem{{sub: true, guard: 2, stmts: []*lstmt{{kind: "close", name: "cur"}, {kind: "open", name: "cur"}}},
+					{sub: true, guard: 4, stmts: []*lstmt{{kind: "close", name: "cur"}}}}, "cur", nil, false)
+				h.forceName = "cur"
 			default:
 				h.stepFetch("", x.op)
 			}
